@@ -162,7 +162,7 @@ func (g *gen) genPolicy(kind string) *PolicySpec {
 			terms = append(terms, TermSpec{Match: m, Actions: acts})
 		}
 		terms = append(terms, TermSpec{Actions: []ActionSpec{{Kind: "accept"}}})
-		return &PolicySpec{Terms: terms}
+		return &PolicySpec{Terms: terms, Split: r.Chance(0.35)}
 	}
 	return AcceptAll()
 }
